@@ -76,9 +76,14 @@ func (m *RWMutex) Lock() {
 	if g.Dead() {
 		return
 	}
-	m.waitingWriters++
-	g.Yield("RWMutex.Lock", func() bool { return !m.writer && m.readers == 0 })
-	m.waitingWriters--
+	// The scheduling point comes before the call becomes visible to others: a writer that has started waiting
+	// excludes new readers (Go's writer preference), so "about to call Lock" and "waiting in Lock" are different states.
+	g.Yield("RWMutex.Lock", nil)
+	if m.writer || m.readers > 0 {
+		m.waitingWriters++
+		g.Yield("RWMutex.Lock(waiting)", func() bool { return !m.writer && m.readers == 0 })
+		m.waitingWriters--
+	}
 	m.writer = true
 	g.AcquireVC(m.vc)
 	g.AcquireVC(m.rvc)
